@@ -3,12 +3,12 @@
 # Confirms in a scratch git worktree of /repo (created under /tmp, removed afterwards) that the seeded change
 #  (a) applies and compiles, (b) leaves the repository's own suite green, (c) makes its demonstration fail,
 #  (d) and that the demonstration passes on the unchanged tree. Nothing is written to /repo.
-seed="$1"; sd=/verif/seeded/$seed; wt=/tmp/verif-seed-wt
+seed="$1"; sd=/verif/seeded/$seed; lane="${LANE:-0}"; wt=/tmp/verif-seed-wt; [ "$lane" != 0 ] && wt=/tmp/verif-seed-wt-$lane
 [ -f $sd/patch.diff ] || { echo "$seed: no patch.diff"; exit 2; }
 git -C /repo worktree remove --force $wt 2>/dev/null; rm -rf $wt
 git -C /repo worktree add -q --detach $wt HEAD || exit 2
 cd $wt || exit 2
-export CARGO_NET_OFFLINE=true CARGO_TARGET_DIR=/tmp/verif-seed-target
+export CARGO_NET_OFFLINE=true CARGO_TARGET_DIR=/tmp/verif-seed-target$( [ "${LANE:-0}" != 0 ] && echo -${LANE} )
 demo=$(ls $sd/*.rs 2>/dev/null | head -1)
 git apply $sd/patch.diff 2>/dev/null || patch -p1 -s < $sd/patch.diff || { echo "$seed: patch does not apply"; exit 2; }
 suite=$(timeout 900 cargo test --workspace --no-fail-fast --offline 2>&1 | grep -E "^test result" | tr '\n' ' ')
